@@ -263,6 +263,10 @@ type c06Spec struct {
 	UnlockCheck    bool
 	UnlockCheckHT  byte
 	UnlockCheckPad int
+	// P2SH: what was built as the locking script is the redeem script of a pay-to-script-hash
+	// output (HASH160 <hash> EQUAL); the unlocking script ends with a push of it. Needs the P2SH flag,
+	// before Genesis; the script code of a check inside it is the redeem script.
+	P2SH bool
 }
 
 func smallOp(n int) []byte {
@@ -408,6 +412,11 @@ func c06Make(r *prng.R, sp *c06Spec) *c06Case {
 		lock = append(lock, e...)
 	}
 	lock = append(lock, sp.LockTail...)
+	var redeem []byte
+	if sp.P2SH {
+		redeem = lock
+		lock = append(append([]byte{0xa9, 0x14}, gen.Hash160(redeem)...), 0x87)
+	}
 	cs.Lock = lock
 	// spending transaction
 	shape := gen.RandShape(r, gen.ShapeOpts{MinIns: 1, MaxIns: 4, MaxOuts: 4})
@@ -446,6 +455,9 @@ func c06Make(r *prng.R, sp *c06Spec) *c06Case {
 			u = append(u, t...)
 		}
 		u = append(u, sp.UnlockTail...)
+		if sp.P2SH {
+			u = append(u, gen.Push(redeem)...)
+		}
 		return u
 	}
 	place := make([][]byte, len(sp.Slots))
@@ -810,6 +822,56 @@ func init() {
 				}
 			}
 		}
+		c.Phase("embedded-signature-multisig") // 2-of-2 under the FORKID flag whose locking script also pushes one of the two signatures: a signature of the original type is taken out of the script code (before the flag refuses it), one of the FORKID type stays in it
+		n = 0
+		for _, fl := range []uint32{uint32(scriptflag.EnableSighashForkID), uint32(scriptflag.EnableSighashForkID | scriptflag.UTXOAfterGenesis), uint32(scriptflag.EnableSighashForkID | scriptflag.VerifyNullFail)} {
+			for variant := 0; variant < 4; variant++ { // bit 0: ... NOT at the end; bit 1: the original-type signature belongs to the second key (it is then checked first)
+				for rep := 0; rep < 3; rep++ {
+					n++
+					if !c.Case(n) {
+						continue
+					}
+					r := c.Rand(n)
+					var kbs [2]mon.Hex
+					var privs [2]*bec.PrivateKey
+					var pks [2][]byte
+					for k := range kbs {
+						kb := r.Bytes(32)
+						kb[0] &= 0x7f
+						kb[31] |= 1
+						kbs[k] = kb
+						p, q := keyOf(kb)
+						privs[k], pks[k] = p, q.SerialiseCompressed()
+					}
+					shape := gen.RandShape(r, gen.ShapeOpts{MinIns: 1, MaxIns: 3, MaxOuts: 3})
+					cs := &c06Case{Flags: fl, Sats: uint64(1 + r.Intn(100000)), Keys: []mon.Hex{kbs[0], kbs[1]}, Tx: *shape, Idx: r.Intn(len(shape.Ins)), Class: "embedded-signature-multisig"}
+					codeMinus := append(append(append([]byte{0x75, 0x52}, gen.Push(pks[0])...), gen.Push(pks[1])...), 0x52, 0xae)
+					if variant&1 == 1 {
+						codeMinus = append(codeMinus, 0x91)
+					}
+					legacyKey := variant >> 1 & 1
+					mtx := shModelTx(&cs.Tx)
+					dgL, err1 := refsighash.LegacyDigest(mtx, cs.Idx, codeMinus, 0x01)
+					dgF, err2 := refsighash.ForkIDDigest(mtx, cs.Idx, codeMinus, cs.Sats, 0x41)
+					if err1 != nil || err2 != nil {
+						continue
+					}
+					derL, derF := signDER(privs[legacyKey], dgL[:]), signDER(privs[1-legacyKey], dgF[:])
+					sigL, sigF := append(append([]byte{}, derL...), 0x01), append(append([]byte{}, derF...), 0x41)
+					cs.Lock = append(append([]byte{}, gen.Push(sigL)...), codeMinus...)
+					cs.Sigs = []c06SigRec{{Body: derL, Key: legacyKey, Digest: dgL[:]}, {Body: derF, Key: 1 - legacyKey, Digest: dgF[:]}}
+					u := []byte{0x00} // signatures in key order
+					if legacyKey == 0 {
+						u = append(append(u, gen.Push(sigL)...), gen.Push(sigF)...)
+					} else {
+						u = append(append(u, gen.Push(sigF)...), gen.Push(sigL)...)
+					}
+					cs.Tx.Ins[cs.Idx].Unlock, cs.Tx.Ins[cs.Idx].UnlockNil = u, false
+					cs.Desc = fmt.Sprintf("2-of-2 with the original-type signature of key %d also pushed in the locking script, variant %d", legacyKey, variant)
+					judge(c, cs)
+				}
+			}
+		}
 		c.Phase("multisig-small") // n <= 3: every assignment of (key, class) to the m slots
 		n = 0
 		msClasses := []string{"correct", "wrong-digest", "empty"}
@@ -888,6 +950,52 @@ func init() {
 								return sp
 							}, "multisig-nullfail-matrix")
 						}
+					}
+				}
+			}
+		}
+		c.Phase("p2sh-wrapped") // the checks sit in a redeem script (P2SH flag, before Genesis): P2PK, P2PKH, 1-of-2 and 2-of-3 multisig inside, separators inside, with and without FORKID - the script code is the redeem script
+		n = 0
+		for _, kind := range []string{"p2pk", "p2pkh", "multisig-1of2", "multisig-2of3"} {
+			for _, base := range []uint32{uint32(scriptflag.Bip16), uint32(scriptflag.Bip16 | scriptflag.EnableSighashForkID), uint32(scriptflag.Bip16 | scriptflag.VerifyStrictEncoding | scriptflag.VerifyNullFail),
+				uint32(scriptflag.Bip16 | scriptflag.EnableSighashForkID | scriptflag.VerifyNullFail | scriptflag.StrictMultiSig), uint32(scriptflag.Bip16 | scriptflag.VerifyCleanStack | scriptflag.EnableSighashForkID)} {
+				for _, cl := range []string{"correct", "correct", "wrong-digest", "empty", "wrong-key"} {
+					for sep := -1; sep <= 2; sep++ {
+						n++
+						kind, base, cl, sep := kind, base, cl, sep
+						run(n, func(r *prng.R) *c06Spec {
+							fork := scriptflag.Flag(base)&scriptflag.EnableSighashForkID != 0
+							sp := &c06Spec{Kind: kind, Flags: base, SepPos: sep, SepKind: prng.Pick(r, sepKinds), P2SH: true, Not: cl != "correct" && r.Bool()}
+							switch kind {
+							case "multisig-1of2":
+								sp.Kind, sp.M, sp.N = "multisig", 1, 2
+							case "multisig-2of3":
+								sp.Kind, sp.M, sp.N = "multisig", 2, 3
+							}
+							for i := 0; i < sp.N; i++ {
+								sp.KeyEnc = append(sp.KeyEnc, prng.Pick(r, []string{"c", "u"}))
+							}
+							ns := 1
+							if sp.Kind == "multisig" {
+								ns = sp.M
+							}
+							for i := 0; i < ns; i++ {
+								k := i
+								if sp.Kind == "multisig" {
+									k = i + (sp.N-sp.M)*(i%2)
+								}
+								c2 := "correct"
+								if i == ns-1 {
+									c2 = cl
+								}
+								sl := slot(r, k, c2, fork)
+								if c2 == "wrong-key" {
+									sl.Key = sp.N + 1
+								}
+								sp.Slots = append(sp.Slots, sl)
+							}
+							return sp
+						}, "p2sh-wrapped")
 					}
 				}
 			}
